@@ -63,6 +63,7 @@ ABTI_cond_wait(ABTI_local **pp_local, ABTI_cond *p_cond, ABTI_mutex *p_mutex)
 
     if (p_cond->p_waiter_mutex == NULL) {
         p_cond->p_waiter_mutex = p_mutex;
+        ABTI_VERIF_EV(ABTI_VEV_DATA, p_cond, 1, p_mutex);
     } else {
         if (p_cond->p_waiter_mutex != p_mutex) {
             ABTD_spinlock_release(&p_cond->lock);
